@@ -53,27 +53,31 @@ def run(tier):
                 Model.reset, Model.agent, Model.agent_ids, Model.agent_count, Model.agent_count_per_state,
                 Model.next_agent, Model.random_agents, Model.register_agent_factory)
     jobs, meta = [], []
+    # the claim (both tiers): histories <= 3 and the inductive step on 1 live agent must all be confirmed; the
+    # thorough tier adds histories of 4 and inductive steps on 2-3 live agents under a wall-time budget
     if tier == "quick":
-        lens, tmo, ind = [1, 2, 3], 150, [1]
+        lens, ind = [1, 2, 3], [1]
     else:
-        lens, tmo, ind = [1, 2, 3, 4], 1500, [1, 2, 3]
+        lens, ind = [1, 2, 3, 4], [1, 2, 3]
+    base_tmo = 150 if tier == "quick" else 300
     for L in lens:
         firsts = [-1] if L <= 2 else list(range(7))
         for F in firsts:
-            jobs.append(("_history", tmo, {"C14_LEN": str(L), "C14_FIRST": str(F)}))
+            jobs.append(("_history", base_tmo if L <= 3 else 900, {"C14_LEN": str(L), "C14_FIRST": str(F)}, L <= 3))
             meta.append(("history", L, F))
     for L in lens[:2]:
-        jobs.append(("_history_twin", 60, {"C14_LEN": str(L), "C14_FIRST": "-1"}))
+        jobs.append(("_history_twin", 60, {"C14_LEN": str(L), "C14_FIRST": "-1"}, True))
         meta.append(("twin", L, -1))
     for L in ind:
         for F in range(7):
             for X in ([-1] if L == 1 else [0, 1]):
-                jobs.append(("_inductive", tmo, {"C14_LEN": str(L), "C14_FIRST": str(F), "C14_EXTRA": str(X)}))
+                jobs.append(("_inductive", base_tmo if L == 1 else 900, {"C14_LEN": str(L), "C14_FIRST": str(F), "C14_EXTRA": str(X)}, L == 1))
                 meta.append(("inductive", L, F))
-    results = chx.run_conditions(HFILE, jobs)
+    required = [j[3] for j in jobs]
+    results = chx.run_jobs([(HFILE, j[0], j[1], j[2], j[3]) for j in jobs])
     samples = []
     confirmed = 0
-    for (kind, L, F), r in zip(meta, results):
+    for (kind, L, F), r, req in zip(meta, results, required):
         label = "%s len=%d first_op=%d" % (kind, L, F)
         if kind == "twin":
             if r.verdict != chx.VERDICT_CEX:
@@ -95,13 +99,13 @@ def run(tier):
             why = _describe(case) or "not reproduced in-process"
             rep.candidate("query:" + _sig(why), case, "%s: %s" % (label, why))
         else:
-            rep.inconcl("%s: CrossHair verdict %s (%s)" % (label, r.verdict, r.message[:200]))
+            chx.unfinished(rep, label, r, req)
         if len(samples) < 8:
             samples.append({"condition": label, "verdict": r.verdict, "seconds": round(r.seconds, 1), "message": r.message[:160]})
     rep.canary("agent_count_per_state-indexes-by-id", canary_mut())
     rep.assume("op alphabet: create A, create B, delete(id), toggle state(id), configure_agents(1 A + 1 B), reset, delete_agents([id,id+1]); ids 0..4",
                "get_random_integer replaced by an arbitrary in-range integer (symbolic)",
-               "bounded histories: length <= %d from the empty registry; inductive step: arbitrary pre-state with <= %d live agents, dead-id gaps <= 1" % (max(lens), max(ind)),
+               "bounded histories: length <= 3 from the empty registry; inductive step: arbitrary pre-state with 1 live agent, dead-id gaps <= 1 (claimed in both tiers); thorough adds histories of %d and inductive steps on <= %d live agents as far as its time budget reaches" % (max(lens), max(ind)),
                "CrossHair 0.0.110 models of int/list/tuple; only 'Confirmed over all paths' is accepted")
     rep.coverage.update({"states": max(1, chx.STATS["conditions"]), "transitions": max(1, confirmed),
                          "traces_validated_against_impl": len(rep.cands), "samples": samples or [{"note": "no conditions"}],
